@@ -2,10 +2,12 @@ package natsdiff
 
 import (
 	"context"
+	"encoding/json"
 	"errors"
 	"fmt"
 	"os"
 	"runtime"
+	"sort"
 	"strings"
 	"sync"
 	"sync/atomic"
@@ -88,13 +90,16 @@ func runSequence(steps []Step) (sig, msg string, stats map[string]int) {
 	lastWrite := map[string]time.Time{}
 	var maxRev uint64
 	var watchers []*liveWatcher
-	defer func() {
+	baseline := adapterGoroutines()
+	stopAll := func() {
 		for _, w := range watchers {
 			if w.real != nil {
 				w.real.Stop()
+				w.real = nil
 			}
 		}
-	}()
+	}
+	defer stopAll()
 	fail := func(i int, s, m string) (string, string, map[string]int) {
 		return s, fmt.Sprintf("step %d %+v: %s", i, steps[i], m), stats
 	}
@@ -240,7 +245,7 @@ func runSequence(steps []Step) (sig, msg string, stats map[string]int) {
 				return fail(i, "C14 watch-failed", err.Error())
 			}
 			lw := &liveWatcher{key: key, real: w, model: model.Watch(key)}
-			lw.first = w.Updates()
+			// (Updates() is not called here: a watcher may be stopped without ever having been read)
 			watchers = append(watchers, lw)
 			stats["watch"]++
 		case "recv":
@@ -256,6 +261,9 @@ func runSequence(steps []Step) (sig, msg string, stats map[string]int) {
 				want, ok := lw.model.TryNext()
 				// exactly as watchLoop does: Updates() is called again before every receive
 				ch := lw.real.Updates()
+				if lw.first == nil {
+					lw.first = ch
+				}
 				if ch != lw.first {
 					return fail(i, "C14 updates-returns-a-new-channel", "Updates() returned a different channel than on its first call: events are split between channels")
 				}
@@ -317,7 +325,33 @@ func runSequence(steps []Step) (sig, msg string, stats map[string]int) {
 			}
 		}
 	}
+	// every watcher is stopped now (whatever it still had pending, whether or not Updates() was ever called on
+	// it): no goroutine of the adapter may stay behind
+	stopAll()
+	left := 0
+	for wait := 0; wait < 60; wait++ {
+		if left = adapterGoroutines() - baseline; left <= 0 {
+			break
+		}
+		time.Sleep(5 * time.Millisecond)
+	}
+	stats["watchers-stopped-at-end"] += len(watchers)
+	if left > 0 {
+		return "C14 goroutines-left-after-stop", fmt.Sprintf("after all %d watchers of the sequence were stopped, %d goroutine(s) with adapter frames are still there 300ms later (%d before the sequence):\n%s", len(watchers), left, baseline, adapterStacks()), stats
+	}
 	return "", "", stats
+}
+
+func adapterStacks() string {
+	buf := make([]byte, 1<<22)
+	n := runtime.Stack(buf, true)
+	var out []string
+	for _, g := range strings.Split(string(buf[:n]), "\n\n") {
+		if strings.Contains(g, "natsWatcherAdapter") {
+			out = append(out, g)
+		}
+	}
+	return strings.Join(out, "\n\n")
 }
 
 func adapterGoroutines() int {
@@ -394,9 +428,11 @@ func genSteps() *rapid.Generator[[]Step] {
 			}
 			steps = append(steps, st)
 		}
-		// every sequence ends by draining all watchers
-		for w := 0; w < 4; w++ {
-			steps = append(steps, Step{Op: "recv", W: w})
+		// most sequences end by draining all watchers (the others stop them with events still pending)
+		if rapid.IntRange(0, 3).Draw(t, "drain") > 0 {
+			for w := 0; w < 4; w++ {
+				steps = append(steps, Step{Op: "recv", W: w})
+			}
 		}
 		return steps
 	})
@@ -405,7 +441,7 @@ func genSteps() *rapid.Generator[[]Step] {
 func TestC14(t *testing.T) {
 	r := report.New("C14")
 	defer r.Write()
-	r.Rule = "operation sequences (4-30 steps over 3 keys in a fresh memory-storage bucket with MaxAge 200ms on an embedded nats-server, issued through the library's real adapter): Create(v), Update(v, revision in {latest, stale, future, 0}), Get, Delete, sleep past expiry (<=3), Watch, receive-everything on a watcher (calling Updates() before every receive as the watch loop does), stop a watcher, 300 extra Updates() calls; values empty / text / invalid UTF-8 / 64KiB; oracle: after every step the adapter's result equals the reference model's (success, revision, error text, errors.Is/As relations, classification), revisions strictly increase, each watcher receives exactly the model's event queue in order (initial value, nil marker, every change once, deletions as empty values, nothing on expiry) through one stable channel, goroutines with adapter frames do not grow with Updates() calls. Non-trivial = a sequence with a stale-revision Update, a Create after delete or expiry, and a watcher that received >= 3 events; distinct by hash of the sequence."
+	r.Rule = "operation sequences (4-30 steps over 3 keys in a fresh memory-storage bucket with MaxAge 200ms on an embedded nats-server, issued through the library's real adapter): Create(v), Update(v, revision in {latest, stale, future, 0}), Get, Delete, sleep past expiry (<=3), Watch, receive-everything on a watcher (calling Updates() before every receive as the watch loop does), stop a watcher, 300 extra Updates() calls; values empty / text / invalid UTF-8 / 64KiB; oracle: after every step the adapter's result equals the reference model's (success, revision, error text, errors.Is/As relations, classification), revisions strictly increase, each watcher receives exactly the model's event queue in order (initial value, nil marker, every change once, deletions as empty values, nothing on expiry) through one stable channel, goroutines with adapter frames do not grow with Updates() calls, and none is left once every watcher of the sequence has been stopped (drained or with events pending, read or never read). Non-trivial = a sequence with a stale-revision Update, a Create after delete or expiry, and a watcher that received >= 3 events; distinct by hash of the sequence."
 	r.Assume("real time against nats-server v2.12.2 / nats.go v1.47.0, memory storage; a message lives between MaxAge and MaxAge+~250ms on the server (age timer granularity), so operations are kept out of the window (age in [MaxAge-60ms, MaxAge+330ms]) in which the outcome is the server's choice; single server (R=1); bucket history 64: with history 1 JetStream itself drops a superseded revision that a lagging watcher has not been sent yet (observed once under load), so 'every change exactly once' is only well-defined within the history depth")
 	judge := func(steps []Step) string {
 		sig, msg, stats := runSequence(steps)
@@ -436,6 +472,24 @@ func TestC14(t *testing.T) {
 			t.Error(m)
 		}
 		return
+	}
+	// sequences that once failed (kept under regressions/C14) run first, on the first shard
+	if k, _ := report.Shard(); k == 0 {
+		regs := report.RegressionInputs("C14")
+		var names []string
+		for n := range regs {
+			names = append(names, n)
+		}
+		sort.Strings(names)
+		for _, n := range names {
+			var steps []Step
+			if err := json.Unmarshal(regs[n], &steps); err != nil {
+				t.Fatalf("regression %s: %v", n, err)
+			}
+			if m := judge(steps); m != "" {
+				t.Errorf("regression %s: %s", n, m)
+			}
+		}
 	}
 	rapid.Check(t, func(rt *rapid.T) {
 		if m := judge(genSteps().Draw(rt, "steps")); m != "" {
